@@ -8,7 +8,7 @@ CHECKS = {
    text="Abstract recipes (sections, steps, text paragraphs, ingredients/cookware/timers with all value kinds, and at level Ext modifiers, aliases, notes, references, intermediate references, mode switches, inline quantities, YAML front matter) are generated, printed with a random spelling (spacing, soft wraps, comments, escapes, blank/comment lines, section styles, `>>` vs front matter, CRLF) and parsed by the canonical resp. extended parser; every public field of the result is compared with the image computed by an independent reference resolver. Bounded random search: sizes <= 10 blocks x 7 items, case counts fixed per tier.",
    note="Trusted: the harness' reference resolver (written from extensions.md and the statement), its text normalisation (blank runs collapsed, step ends trimmed) and serde_yaml as the YAML reader of the expected front matter values.", ref="DESIGN.md section 3 (C01)"),
  "C03": dict(tech="bounded exhaustive enumeration over a token alphabet + property-based testing (token soup, line documents, generated recipes and their mutations) with a catch_unwind/watchdog totality oracle; libFuzzer campaign in the thorough tier",
-   text="Every sequence of <= 3 (quick) / 4 (thorough) tokens of a 62-token alphabet (markers, comment delimiters, blanks incl. NBSP / U+3000 / BOM, NUL, U+2212, multi-byte characters) and <= 5/6 tokens of a 17-token component alphabet, plus random soups (with arbitrary characters and exotic blanks), line documents (incl. 6-13 `>>` entries), generated recipes (three profiles: default, section-heavy, metadata-heavy) and their mutations (token edits, arbitrary characters, exotic blanks, block comments, repeated pieces) are pushed through every public consumer (events, metadata iterator, AST, parse, metadata-only parse, report rendering, accessors, scaling, conversion, grouping, listing, categorising, serialising) also through parse_with_options / parse_metadata_with_options with a recipe-reference checker and a metadata validator, under debug assertions and overflow checks; a panic or a missed 20 s deadline is a violation. A large-inputs part repeats 65 units 3 000 / 12 000 times and builds single tokens and fields of 70 000 units, run in child processes on 2 MiB stacks so that a stack overflow (process abort) is observed. A converters part builds a converter per case from units.toml plus a generated layer with extreme fraction settings (NaN / infinite / negative accuracies, denominators 0..255, whole limits 0..2^32-1) and units with ratios from 5e-324 to 1.8e308, and runs parsing, scaling, grouping, listing, conversion, fitting and approximation on it.",
+   text="Every sequence of <= 3 (quick) / 4 (thorough) tokens of a 62-token alphabet (markers, comment delimiters, blanks incl. NBSP / U+3000 / BOM, NUL, U+2212, multi-byte characters) and <= 5/6 tokens of a 17-token component alphabet, plus random soups (with arbitrary characters and exotic blanks), line documents (incl. 6-13 `>>` entries), generated recipes (three profiles: default, section-heavy, metadata-heavy) and their mutations (token edits, arbitrary characters, exotic blanks, block comments, repeated pieces) are pushed through every public consumer (events, metadata iterator, AST, parse, metadata-only parse, report rendering, accessors, scaling, conversion, grouping, listing, categorising, serialising) also through parse_with_options / parse_metadata_with_options with a recipe-reference checker and a metadata validator, under debug assertions and overflow checks; a panic or a missed 20 s deadline is a violation. A large-inputs part repeats 65 units 3 000 / 12 000 times and builds single tokens and fields of 70 000 units, run in child processes on 2 MiB stacks so that a stack overflow (process abort) is observed. A converters part builds a converter per case from units.toml plus a generated layer with extreme fraction settings (NaN / infinite / negative accuracies, denominators 0..255, whole limits 0..2^32-1) and units with ratios from 5e-324 to 1.8e308, and runs parsing, scaling, grouping, listing, conversion, fitting and approximation on it. Every check that uses these input families (C03-C07, C14) also runs a fixed catalogue of documents that need several rare ingredients at once, under four configurations.",
    note="Trusted: the 20 s deadline as a proxy for non-termination; scaling factors are finite and positive.", ref="DESIGN.md section 3 (C03)"),
  "C04": dict(tech="bounded exhaustive enumeration + property-based testing with span invariants (token tiling via the verif hook, bounds, char boundaries, fragment fidelity, ordering) and report rendering as oracle",
    text="Same input families as C03 (multi-byte characters adjacent to every marker by construction). For each input and configuration: tokens tile the input, every event / fragment / component part / diagnostic label span is in bounds, ordered and on char boundaries, fragment text equals the input slice, content events are ordered and disjoint, every report renders (also the reports that only parse options produce), and the derived views of every Text (text, trimmed forms, is_text_empty, located_*) agree with its fragments. The large-inputs part checks spans after tokens longer than 64 KiB.",
